@@ -88,6 +88,9 @@ def accessors_of(val):
             ("__or__", lambda: list((val | {}).values())),
             ("__ror__", lambda: list(({} | val).values())),
             ("keys", lambda: list(val)),
+            ("keys()", lambda: list(val.keys())),
+            ("items()-keys", lambda: [k for k, _ in val.items()]),
+            ("reversed", lambda: list(reversed(val))),
         ]
     elif isinstance(val, (set, frozenset, tuple)):
         acc += [("iter", lambda: list(val))]
@@ -268,9 +271,45 @@ def shared_nodes(source, sink, mutable_only=True):
     return sorted(out)
 
 
-def heapify(root):
+def atom_code(v):
+    """Python class of a scalar, as the heap model's atoms carry it (Sem/Alias.lean `atomFits`):
+    0 None, 1 bool, 2 int, 3 float, 4 str, 5 anything else"""
+    if v is None:
+        return 0
+    if isinstance(v, bool):
+        return 1
+    if isinstance(v, int):
+        return 2
+    if isinstance(v, float):
+        return 3
+    if isinstance(v, str):
+        return 4
+    return 5
+
+
+def heap_tag(o):
+    """node_tag, with typedpy's typed collection wrappers and ImmutableStructure instances told apart (what an
+    immutable owner exempts from its defensive copy: Sem/Alias.lean `exemptTag`)"""
+    t = node_tag(o)
+    if t is None:
+        return None
+    name = type(o).__name__
+    if name == "_ListStruct":
+        return "wlist"
+    if name == "_DictStruct":
+        return "wdict"
+    if name == "_DequeStruct":
+        return "wdeque"
+    if t == "inst":
+        from typedpy import ImmutableStructure
+        if isinstance(o, ImmutableStructure):
+            return "iinst"
+    return t
+
+
+def heapify(root, typed=False):
     """object graph -> (cells, root item) for the Lean heap model: cells[addr] = [tag, [[key, item], ...]],
-    item = 0 (atom) | {"r": addr}"""
+    item = 0 (atom) | {"r": addr}; typed=True: atoms carry `atom_code`, tags are `heap_tag`s"""
     order = []
     index = {}
 
@@ -286,8 +325,9 @@ def heapify(root):
     visit(root)
 
     def item(v):
-        return {"r": index[id(v)]} if id(v) in index and node_tag(v) is not None else 0
-    cells = [[node_tag(o), [[k, item(v)] for k, v in children(o)]] for o in order]
+        return {"r": index[id(v)]} if id(v) in index and node_tag(v) is not None else (atom_code(v) if typed else 0)
+    tag = heap_tag if typed else node_tag
+    cells = [[tag(o), [[k, item(v)] for k, v in children(o)]] for o in order]
     return cells, item(root)
 
 
